@@ -36,3 +36,12 @@ pub use group::{group_files, write_report, FileGroup, FileSubGroup};
 pub use path::Path;
 
 const TIMESTAMP_FMT: &str = "%Y-%m-%d %H:%M:%S.%3f %z";
+
+/// Verification hook: exposes internal encoding and matching functions to external harnesses.
+#[cfg(pkolaczk_fclones_verif)]
+pub mod verif {
+    pub use crate::arg::{from_stfu8, join, quote, split, to_stfu8, Arg};
+    pub use crate::pattern::{Pattern, PatternError, PatternOpts};
+    pub use crate::regex::Regex;
+    pub use crate::selector::PathSelector;
+}
